@@ -39,6 +39,18 @@ Clause -> case family
                                                   word (mixed / lower case) on variables, members, records and
                                                   arrays, LowLimit/HighLimit on REAL32/REAL64 (bit-exact),
                                                   DCF bit rate = any multiple of 1000 bit/s (1..1000 kbit/s)
+  "every dictionary" incl. one that has been      histories (case["history"], case["donor"]): after the first
+  exported before and changed since               export/import the SAME dictionary object is changed through its
+                                                  public mapping API - remove an object (del od[index], del
+                                                  od[name], od.pop), add an object at a freed or a new index
+                                                  (add_object), put the removed object back (od[index] = obj),
+                                                  remove a record member (del rec[sub]), add a member
+                                                  (add_member), change every default / value - and after EVERY
+                                                  step exported (eds or dcf; stream, file name or stdout) and
+                                                  re-imported; the result must equal a snapshot of the dictionary
+                                                  as it is at that moment.  enum/history: every sequence of 2
+                                                  (thorough: 3, a sample of 4) operations on a dictionary with
+                                                  objects in all three object lists; hyp: 1..6 drawn operations
 """
 import contextlib
 import io
@@ -69,7 +81,18 @@ RULE = ("case = (abstract dictionary model, route code|text, document type eds|d
         "storage location = any word of letters/digits/'_' in any letter case (variables, members, records, "
         "arrays), float LowLimit/HighLimit on REAL32/REAL64 objects, DCF bit rate = any 1..1000 kbit/s; the "
         "family enum/extras enumerates long-mantissa factors, REAL limit pairs, mixed-case storage words and "
-        "non-CiA bit rates in both routes. Oracle: attribute-wise equality "
+        "non-CiA bit rates in both routes. Histories (25 % of the drawn cases + family enum/history = every "
+        "sequence of 2 [thorough: 3, sample of 4] operations of a 12-letter alphabet on an 8-object dictionary "
+        "with objects in the mandatory, optional and manufacturer lists): after the first round trip the same "
+        "dictionary object is changed by 1..6 operations of its public mapping API - export only, remove an object "
+        "(del od[index] | del od[name] | od.pop(index); at least one object stays), add_object of a donor object "
+        "at its own index when free (possibly just freed) else the next free index, od[index] = the object removed "
+        "last, del record[sub] (sub > 0), add_member at highest sub + 1 (arrays: element type), change every "
+        "default / value (code-built only) - and after every operation exported (eds | dcf; stream | file name | "
+        "stdout) and re-imported; oracle = the same attribute-wise comparison against a snapshot taken from "
+        "od.indices / subindices immediately before that export; an operation that is not applicable to the "
+        "dictionary as it is then (nothing removed yet, no record, ...) counts as export only. "
+        "Oracle: attribute-wise equality "
         "of import_od(export_od(od)) with a snapshot of od taken before the export (DCF additionally value, "
         "bit rate, node id; REAL limits and REAL defaults bit-exact) + all destinations give the same document, "
         "character by character incl. line ends, once the values of CreationDate/CreationTime/ModificationDate/"
@@ -92,6 +115,10 @@ ASSUMPTIONS = [
     "run_case changes the current directory to the scratch directory while it exports to relative file names "
     "and restores it afterwards",
     "compact arrays of a model are built in code as arrays with explicit members (at most 20)",
+    "histories: a dictionary that was changed through ObjectDictionary.__delitem__ / pop / add_object / "
+    "__setitem__, ODRecord.__delitem__, ODRecord/ODArray.add_member is still 'an object dictionary' of the "
+    "property; added objects get names that are not yet lookup keys of the dictionary (top-level names and "
+    "'Parent.Child'), indices stay inside 0x1000..0x9FFF, sub 0 is never removed, at most 21 members",
 ]
 BUDGET = {"quick": 150, "thorough": 240}
 
@@ -133,29 +160,37 @@ def _build_var(v, index, sub, name=None):
     return var
 
 
+def _build_object(o, index=None, name=None):
+    """One top-level object of the abstract model as a canopen object (optionally at another index / under
+    another name: objects added to an existing dictionary by a history)."""
+    from canopen.objectdictionary import ODArray, ODRecord, ODVariable
+    kind = o["kind"]
+    index = o["index"] if index is None else index
+    name = o["name"] if name is None else name
+    if kind in ("var", "domain"):
+        return _build_var(em.top_var(o), index, 0, name=name)
+    obj = (ODRecord if kind == "record" else ODArray)(name, index)
+    obj.storage_location = o["storage"]
+    if kind == "compact":
+        zero = ODVariable("Number of entries", index, 0)
+        zero.data_type = rc.UNSIGNED8
+        zero.access_type = "ro"
+        zero.default = min(o["n"], 20)
+        obj.add_member(zero)
+        for k in range(1, min(o["n"], 20) + 1):
+            nm = o["names"][k - 1] if o["names"] is not None and k <= len(o["names"]) else f"{name} {k}"
+            obj.add_member(_build_var(o["var"], index, k, name=nm))
+    else:
+        for m in o["members"]:
+            obj.add_member(_build_var(m, index, m["sub"]))
+    return obj
+
+
 def build_od(model):
-    from canopen.objectdictionary import ObjectDictionary, ODArray, ODRecord, ODVariable
+    from canopen.objectdictionary import ObjectDictionary
     od = ObjectDictionary()
     for o in model["objects"]:
-        kind, index = o["kind"], o["index"]
-        if kind in ("var", "domain"):
-            od.add_object(_build_var(em.top_var(o), index, 0))
-            continue
-        obj = (ODRecord if kind == "record" else ODArray)(o["name"], index)
-        obj.storage_location = o["storage"]
-        if kind == "compact":
-            zero = ODVariable("Number of entries", index, 0)
-            zero.data_type = rc.UNSIGNED8
-            zero.access_type = "ro"
-            zero.default = min(o["n"], 20)
-            obj.add_member(zero)
-            for k in range(1, min(o["n"], 20) + 1):
-                nm = o["names"][k - 1] if o["names"] is not None and k <= len(o["names"]) else f"{o['name']} {k}"
-                obj.add_member(_build_var(o["var"], index, k, name=nm))
-        else:
-            for m in o["members"]:
-                obj.add_member(_build_var(m, index, m["sub"]))
-        od.add_object(obj)
+        od.add_object(_build_object(o))
     info = od.device_information
     for key, val in (model["devinfo"] or {}).items():
         setattr(info, DEVINFO_ATTR[key], bool(val) if key in em.DEVINFO_BOOL else val)
@@ -319,8 +354,9 @@ def _read_raw(path):
         return f.read()
 
 
-def export_all(od, doc):
-    """-> {destination kind: document text}, paths of the files that may be re-imported"""
+def export_all(od, doc, light=False):
+    """-> {destination kind: document text}, paths of the files that may be re-imported.
+    light: only the four destinations a case can name (family enum/history, whose subject is what follows)"""
     import canopen
     docs = {}
     pid = os.getpid()
@@ -330,6 +366,15 @@ def export_all(od, doc):
     path2 = os.path.join(scratch_dir(), f"{pid}-exp2.{doc}")
     canopen.export_od(od, path2, doc_type=doc)
     docs["path+type"] = _read_raw(path2)
+    if light:
+        buf = io.StringIO()
+        canopen.export_od(od, buf, doc_type=doc)
+        docs["stream"] = buf.getvalue()
+        out = io.StringIO()
+        with contextlib.redirect_stdout(out):
+            canopen.export_od(od, None, doc_type=doc)
+        docs["stdout"] = out.getvalue()
+        return docs, {"path": path, "path+type": path2}
     other = "dcf" if doc == "eds" else "eds"
     # a file name and a directory with more dots than the one in front of the suffix
     ddir = os.path.join(scratch_dir(), "rev1.2")
@@ -439,11 +484,12 @@ def run_case(case) -> Outcome:
         _feature_counts[f] += 1
     family = case.get("family", "hyp")
     klass = (f"{family}/{route}/{doc}" if family == "enum/extras" else f"{family}/{doc}" if family != "hyp" else
-             f"hyp/{route}/{doc}/{dest}/" + ("+".join(sorted(nt)) or "plain") + ("/ext" if xf else ""))
+             f"hyp/{route}/{doc}/{dest}/" + ("+".join(sorted(nt)) or "plain") + ("/ext" if xf else "") +
+             ("/hist" if case.get("history") else ""))
     D = []
     # ---- export to every destination
     try:
-        docs, paths = export_all(od, doc)
+        docs, paths = export_all(od, doc, light=family == "enum/history")
     except Exception as e:
         return Outcome(bool(nt), klass, [Discrepancy(f"C14/export-raises/{type(e).__name__}",
                                                      f"export_od raised {type(e).__name__}: {e}")])
@@ -496,7 +542,184 @@ def run_case(case) -> Outcome:
         D = [Discrepancy("C14/after-edit/" + d.signature.split("/", 1)[1],
                          f"after {n_edit} defaults/values were changed and the dictionary exported again: {d.detail}")
              for d in D2]
+    # ---- the application goes on using the dictionary: objects are removed, added, put back, members come
+    # ---- and go, values change; after every step the dictionary as it is then is exported and imported
+    if not D and case.get("history"):
+        D = _run_history(od, case, doc)
     return Outcome(bool(nt), klass, D[:1])
+
+
+# ---- histories: one dictionary object used again and again ------------------------------------
+LO_INDEX, HI_INDEX = 0x1000, 0x9FFF
+OP_KINDS = ("export", "del", "add", "restore", "delmember", "addmember", "edit")
+
+
+def _keys_in_use(od):
+    """Every string that is a lookup key of the dictionary now: top-level names and 'Parent.Child'."""
+    from canopen.objectdictionary import ODVariable
+    used = set()
+    for obj in od.indices.values():
+        used.add(obj.name)
+        if not isinstance(obj, ODVariable):
+            for m in obj.subindices.values():
+                used.add(obj.name + "." + m.name)
+    return used
+
+
+def _free_name(name, used):
+    k, cand = 0, name
+    while cand in used:
+        k += 1
+        cand = f"{name}_h{k}"
+    return cand
+
+
+def _apply_op(od, h, step, state, case):
+    """Apply one history operation through the public mapping API of ObjectDictionary / ODRecord / ODArray.
+    -> short description, or None when the operation is not applicable to the dictionary as it is now."""
+    from canopen.objectdictionary import ODArray, ODRecord, ODVariable
+    op, sel = h["op"], h.get("sel", 0)
+    indices = sorted(od.indices)
+    if op == "export":
+        return "export"
+    if op == "del":
+        if len(indices) < 2:
+            return None                                   # keep at least one object
+        index = indices[sel % len(indices)]
+        obj = od.indices[index]
+        how = h.get("how", "del")
+        if how == "name" and sum(1 for x in od.indices.values() if x.name == obj.name) == 1:
+            del od[obj.name]                              # a top-level name is looked up first
+        elif how == "pop":
+            od.pop(index)
+        else:
+            how = "del"
+            del od[index]
+        state["removed"].append(obj)
+        return f"{how} {index:#06x}"
+    if op == "add":
+        donor = case.get("donor") or []
+        if not donor:
+            return None
+        o = donor[sel % len(donor)]
+        index = o["index"]
+        for _ in range(HI_INDEX - LO_INDEX + 1):
+            if index not in od.indices:
+                break
+            index = index + 1 if index < HI_INDEX else LO_INDEX
+        else:
+            return None
+        used = _keys_in_use(od)
+        name = _free_name(o["name"], used)
+        members = [m["name"] for m in o.get("members") or []] + list(o.get("names") or [])
+        while any(name + "." + m in used for m in members):
+            name = _free_name(name + "_", used)
+        od.add_object(_build_object(o, index=index, name=name))
+        return f"add {o['kind']} at {index:#06x}"
+    if op == "restore":
+        if not state["removed"]:
+            return None
+        obj = state["removed"][-1]
+        used = _keys_in_use(od)
+        keys = {obj.name}
+        if not isinstance(obj, ODVariable):
+            keys |= {obj.name + "." + m.name for m in obj.subindices.values()}
+        if obj.index in od.indices or keys & used:
+            return None
+        state["removed"].pop()
+        od[obj.index] = obj                               # MutableMapping.__setitem__
+        return f"restore {obj.index:#06x}"
+    if op == "delmember":
+        recs = [i for i in indices if isinstance(od.indices[i], ODRecord)
+                and any(s > 0 for s in od.indices[i].subindices)]
+        if not recs:
+            return None
+        rec = od.indices[recs[sel % len(recs)]]
+        subs = sorted(s for s in rec.subindices if s > 0)
+        sub = subs[h.get("sel2", 0) % len(subs)]
+        del rec[sub]                                      # ODRecord is a MutableMapping
+        return f"del {rec.index:#06x} sub {sub}"
+    if op == "addmember":
+        conts = [i for i in indices if isinstance(od.indices[i], (ODRecord, ODArray))]
+        if not conts:
+            return None
+        cont = od.indices[conts[sel % len(conts)]]
+        sub = max(list(cont.subindices) + [0]) + 1
+        if sub > 0xFE or len(cont.subindices) >= 21:
+            return None
+        dt = h["dt"]
+        if isinstance(cont, ODArray):                     # the elements of an array share one type
+            same = [m.data_type for s, m in sorted(cont.subindices.items()) if s > 0]
+            if same:
+                dt = same[-1]
+        if dt not in rc.INTEGERS:
+            dt = rc.INTEGER16
+        b = em.bounds(dt)
+        used = _keys_in_use(od)
+        name = f"member {sub:x} h{step}"
+        while name in {m.name for m in cont.subindices.values()} or cont.name + "." + name in used:
+            name += "_"
+        v = _var(dt, sub=sub, name=name, default={"k": "int", "v": b[h.get("sel2", 0) % len(b)]},
+                 value={"k": "int", "v": b[(h.get("sel2", 0) * 7 + 3) % len(b)]})
+        cont.add_member(_build_var(v, cont.index, sub))
+        return f"add {cont.index:#06x} sub {sub} ({rc.NAMES.get(dt, dt)})"
+    if op == "edit":
+        if case["route"] != "code":
+            return None                                   # imported objects keep the text of their values
+        return f"edit {_edit_values(od)} values"
+    raise ValueError(op)
+
+
+def _export_to(od, doc, how):
+    import canopen
+    if how == "path":
+        path = os.path.join(scratch_dir(), f"{os.getpid()}-hist.{doc}")
+        canopen.export_od(od, path)
+        return _read_raw(path)
+    if how == "stdout":
+        out = io.StringIO()
+        with contextlib.redirect_stdout(out):
+            canopen.export_od(od, None, doc_type=doc)
+        return out.getvalue()
+    buf = io.StringIO()
+    canopen.export_od(od, buf, doc_type=doc)
+    return buf.getvalue()
+
+
+def _run_history(od, case, doc0):
+    import canopen
+    state = {"removed": []}
+    done = []
+    for step, h in enumerate(case["history"], 1):
+        what = _apply_op(od, h, step, state, case)
+        if what is None:
+            _feature_counts["h-not-applicable"] += 1
+            what = "export"
+        else:
+            _feature_counts["h-" + h["op"]] += 1
+        done.append(what)
+        doc = h.get("doc") or doc0
+        trail = f"after {' ; '.join(done)} (step {step}, {doc} to {h.get('to', 'stream')})"
+        before = snapshot(od)
+        try:
+            text = _export_to(od, doc, h.get("to", "stream"))
+        except Exception as e:
+            return [Discrepancy(f"C14/history/export-raises/{type(e).__name__}",
+                                f"{trail}: export_od raised {type(e).__name__}: {e}")]
+        if snapshot(od) != before:
+            return [Discrepancy("C14/history/export-mutates", f"{trail}: export_od changed the dictionary")]
+        try:
+            s = io.StringIO(text)
+            s.name = f"step{step}.{doc}"
+            od2 = canopen.import_od(s, None if doc == "dcf" else od.node_id)
+        except Exception as e:
+            return [Discrepancy(f"C14/history/reimport-raises/{type(e).__name__}",
+                                f"{trail}: import of the exported {doc} raised {type(e).__name__}: {e}")]
+        D = []
+        compare(D, before, snapshot(od2), doc == "dcf")
+        if D:
+            return [Discrepancy("C14/history/" + D[0].signature.split("/", 1)[1], f"{trail}: {D[0].detail}")]
+    return []
 
 
 def _edited(dt, x):
@@ -721,6 +944,101 @@ def enum_extras(tier):
                "doc": "dcf", "dest": DESTS[n % 4], "family": "enum/extras"}
 
 
+# ---- histories ---------------------------------------------------------------------------
+def _hist_base(j=0):
+    """A dictionary with objects in all three object lists of the document (mandatory, optional,
+    manufacturer / profile): variables, a record, an array."""
+    ident = [_var(rc.UNSIGNED8, sub=0, name="count", access="ro", default={"k": "int", "v": 3}),
+             _var(rc.UNSIGNED32, sub=1, name="Vendor-ID", access="ro", default={"k": "int", "v": 0x1234 + j}),
+             _var(rc.UNSIGNED32, sub=2, name="Product code", access="ro", default={"k": "int", "v": 7}),
+             _var(rc.UNSIGNED32, sub=3, name="Revision = 2", access="ro")]
+    sp = [_var(rc.UNSIGNED8, sub=0, name="count", access="ro", default={"k": "int", "v": 2}),
+          _var(rc.INTEGER40, sub=1, name="set point 1", default={"k": "int", "v": -(1 << 39)}),
+          _var(rc.INTEGER40, sub=2, name="set point 2", default={"k": "int", "v": (1 << 39) - 1},
+               value={"k": "int", "v": -1 - j})]
+
+    def var(index, name, dt, default, **kw):
+        return {"kind": "var", "index": index, "name": name, "sp": 0, "storage": None,
+                "var": _var(dt, default={"k": "int", "v": default}, **kw)}
+    return [var(0x1000, "Device type", rc.UNSIGNED32, 0x191),
+            var(0x1001, "Error register", rc.UNSIGNED8, 0),
+            var(0x1FFF, "Heartbeat time", rc.UNSIGNED16, 0, value={"k": "int", "v": 500}),
+            {"kind": "record", "index": 0x1018, "name": "Identity", "sp": 0, "storage": None, "members": ident},
+            var(0x2000, "Valve % open", rc.INTEGER8, -128, value={"k": "int", "v": 17}),
+            var(0x2001, "Obsolete option", rc.UNSIGNED8, 1),
+            {"kind": "array", "index": 0x5FFF, "name": "Set points", "sp": 0, "storage": "Ram", "members": sp},
+            var(0x9FFF, "Target = velocity", rc.INTEGER32, 0, value={"k": "int", "v": -20}, low={"k": "int", "v": -500},
+                high={"k": "int", "v": 500})]
+
+
+def _hist_donor():
+    m = [_var(rc.UNSIGNED8, sub=0, name="count", access="ro", default={"k": "int", "v": 1}),
+         _var(rc.INTEGER24, sub=1, name="gain", default={"k": "int", "v": -(1 << 23)})]
+    return [{"kind": "var", "index": 0x2001, "name": "New option", "sp": 0, "storage": None,
+             "var": _var(rc.INTEGER16, default={"k": "int", "v": -2}, value={"k": "int", "v": 3})},
+            {"kind": "record", "index": 0x1005, "name": "Controller", "sp": 0, "storage": "ROM", "members": m},
+            {"kind": "var", "index": 0x1000, "name": "Device type", "sp": 0, "storage": None,
+             "var": _var(rc.UNSIGNED32, default={"k": "int", "v": 0x20192})}]
+
+
+HIST_ALPHABET = [
+    {"op": "export"},
+    {"op": "del", "sel": 0, "how": "del"},                     # first object (mandatory list)
+    {"op": "del", "sel": 5, "how": "del"},                     # an object in the middle (manufacturer list)
+    {"op": "del", "sel": -1, "how": "pop"},                    # last object
+    {"op": "del", "sel": 3, "how": "name"},                    # by name (optional list)
+    {"op": "add", "sel": 0},                                   # at an index that may just have been freed
+    {"op": "add", "sel": 1},                                   # a record at a new index
+    {"op": "add", "sel": 2},
+    {"op": "restore"},
+    {"op": "delmember", "sel": 0, "sel2": 1},
+    {"op": "addmember", "sel": 1, "sel2": 0, "dt": rc.INTEGER16},
+    {"op": "edit"},
+]
+_TO = ("stream", "path", "stdout")
+
+
+def enum_histories(tier):
+    """Every sequence of 2 (thorough: and 3, a sample of 4) operations of HIST_ALPHABET on one dictionary that
+    has been exported once already; eds/dcf, code-built / imported, the three destination kinds by turns."""
+    import itertools
+    n = 0
+    for length in (2, 3, 4):
+        for seq in itertools.product(range(len(HIST_ALPHABET)), repeat=length):
+            n += 1
+            if length == 3 and tier == "quick" and n % 24:
+                continue
+            if length == 4 and n % (397 if tier == "quick" else 11):
+                continue
+            if all(HIST_ALPHABET[k]["op"] == "export" for k in seq):
+                continue
+            for doc in ("eds", "dcf"):
+                route = "text" if (n + (doc == "dcf")) % 3 == 0 else "code"
+                hist = [dict(HIST_ALPHABET[k], to=_TO[(n + i) % 3],
+                             doc=("dcf" if doc == "eds" else "eds") if (n + i) % 5 == 0 else None)
+                        for i, k in enumerate(seq)]
+                com = {"node_id": 1 + n % 127, "baudrate": em.STD_BAUD[n % 8], "baud_hex": False}
+                yield {"model": _model(_hist_base(n % 50), doc="dcf", commissioning=com), "route": route,
+                       "node_arg": None, "doc": doc, "dest": DESTS[n % 4], "family": "enum/history",
+                       "history": hist, "donor": _hist_donor()}
+
+
+_OP = st.one_of(
+    st.just({"op": "export"}),
+    st.builds(lambda s, how: {"op": "del", "sel": s, "how": how}, _SEL, st.sampled_from(["del", "pop", "name"])),
+    st.builds(lambda s, how: {"op": "del", "sel": s, "how": how}, _SEL, st.sampled_from(["del", "pop", "name"])),
+    st.builds(lambda s: {"op": "add", "sel": s}, _SEL),
+    st.just({"op": "restore"}),
+    st.builds(lambda s, t: {"op": "delmember", "sel": s, "sel2": t}, _SEL, _SEL),
+    st.builds(lambda s, t, dt: {"op": "addmember", "sel": s, "sel2": t, "dt": dt}, _SEL, _SEL,
+              st.sampled_from(sorted(rc.INTEGERS))),
+    st.just({"op": "edit"}),
+)
+_OP_AT = st.builds(lambda h, to, doc: dict(h, to=to, doc=doc), _OP, st.sampled_from(_TO),
+                   st.sampled_from([None, None, None, "eds", "dcf"]))
+_HISTORY = st.lists(_OP_AT, min_size=1, max_size=6)
+
+
 @st.composite
 def cases(draw):
     flags = draw(st.integers(0, 0xFFF))
@@ -734,9 +1052,14 @@ def cases(draw):
     if (flags >> 8) & 0xF == 0xF and model["comments"]:
         model["comments"] = model["comments"] + [""]               # G1 (reported), excluded + counted
     apply_extras(model, draw(_EXTRAS))
-    return {"model": model, "route": route, "node_arg": node_arg,
+    case = {"model": model, "route": route, "node_arg": node_arg,
             "doc": "dcf" if (flags >> 3) & 1 else "eds",
             "dest": DESTS[(flags >> 4) & 3], "family": "hyp", "edit": route == "code" and bool((flags >> 6) & 1)}
+    if (flags >> 7) & 1 == 0 and (flags >> 6) & 1 == 0:            # 25 %: the dictionary is used further
+        case["history"] = draw(_HISTORY)
+        if any(h["op"] == "add" for h in case["history"]):
+            case["donor"] = draw(em.models(doc="dcf", for_export=True, allow_rel=False, max_objects=2))["objects"]
+    return case
 
 
 def search(ctx):
@@ -746,8 +1069,17 @@ def search(ctx):
     ctx.enumerate(enum_extras(ctx.tier),
                   "long-mantissa factors, description without unit, mixed-case storage words, REAL32/REAL64 "
                   "limits, bit rates other than the 8 CiA ones x eds/dcf x code/text")
+    hist_label = ("sequences of 2 (thorough: 2..3 and a sample of 4) operations {export, remove an object by "
+                  "index / name / pop, add an object at a freed or new index, put the removed object back, remove / "
+                  "add a member, change all values} on an exported dictionary, export + import after every step")
+    if ctx.tier == "thorough":                 # ~470 cases per shard; the drawn cases then use the rest of the budget
+        ctx.enumerate(enum_histories(ctx.tier), hist_label)
     total, chunk = (16000, 500) if ctx.tier == "thorough" else (1100, 275)
     hyp_chunks(ctx, cases(), total, chunk)
+    if ctx.tier != "thorough":
+        # quick: last, so that on a heavily loaded machine the cooperative budget cuts this family and not the
+        # drawn cases (a quarter of which carry a history as well)
+        ctx.enumerate(enum_histories(ctx.tier), hist_label)
     if _feature_counts and ctx.shard == 0:
         ctx.notes.append("shard 0 feature counts (cases containing the feature): " +
                          ", ".join(f"{k}={v}" for k, v in sorted(_feature_counts.items())))
